@@ -1,5 +1,6 @@
 """C12 Copies are equal to their source and independent of it at the documented depth."""
 import ast
+import re
 
 from .common import *  # noqa
 from . import c08
@@ -9,7 +10,21 @@ COPY_MODULES = [DM + "basemodel", DM + "taxonmodel", DM + "treemodel._tree", DM 
                 DM + "treecollectionmodel", DM + "charmatrixmodel", DM + "charstatemodel", "dendropy.utility.container"]
 COPY_NAMES = ("__deepcopy__", "_clone_from", "deep_copy_annotations_from")
 COPY_BRANCH_INITS = (DM + "taxonmodel.TaxonNamespace.__init__", DM + "taxonmodel.Taxon.__init__")
+DEEPCOPY_SELF_OK = {
+    DM + "charstatemodel.StateAlphabet.__deepcopy__": "state alphabets are identity objects shared between matrices by design; the property's list of mutable parts (nodes, edges, taxa, namespace, annotations, sequences) does not include them",
+    DM + "charstatemodel.StateIdentity.__deepcopy__": "state identities belong to their (shared) alphabet and compare by identity; sequences hold references to them by design",
+}
 SCOPED = [DM + "treemodel._tree.Tree", DM + "treecollectionmodel.TreeList", DM + "charmatrixmodel.CharacterMatrix"]
+
+
+def canonical_locals(fi):
+    """local name -> $n by order of first binding (source order)."""
+    params = set(fi.all_params)
+    binds = sorted(((n.lineno, n.col_offset, n.id) for n in ast.walk(fi.node) if isinstance(n, ast.Name) and isinstance(n.ctx, ast.Store) and n.id not in params))
+    out = {}
+    for _, _, nm in binds:
+        out.setdefault(nm, "$%d" % (len(out) + 1))
+    return out
 
 
 def _memo_arg(call):
@@ -131,6 +146,60 @@ def run(index, rep, tier):
                         src = [d for d in ast.walk(l) if isinstance(d, ast.Assign) and norm(d.targets[0]) == norm(x.value)]
                         kinds.append("require_taxon(label)" if src and isinstance(src[0].value, ast.Call) and call_name(src[0].value) == "require_taxon" else "other:" + norm(x.value))
         rep.check(sorted(kinds) == ["itself", "require_taxon(label)"], "R12.2", g.qualname, "taxon mapping kinds %s" % sorted(kinds), fn_where(g), "same namespace: taxon -> itself; other namespace: taxon -> require_taxon(label)", "%s maps source taxa to %s" % (g.qualname, sorted(kinds)))
+
+    # ---- R12.5: the three copy constructors perform the same state updates
+    rep.rule("R12.5", "clone agreement: Tree/TreeList/CharacterMatrix._clone_from perform the same state updates on self and the memo (they are textual copies of one routine; a change to one that is not made to the others is a divergence)")
+    sigs = {}
+    for cq in SCOPED:
+        g = index.function(cq + "._clone_from")
+        src = g.params[1] if len(g.params) > 1 else None
+        canon = canonical_locals(g)
+        sig = set()
+        for w in writes_in(g.node):
+            base = w.base_text
+            txt = norm_stmt(w.stmt) if w.kind != "mutcall" else norm(w.call)
+            for nm, c in canon.items():
+                txt = re.sub(r"\b%s\b" % re.escape(nm), c, txt)
+            if src:
+                txt = re.sub(r"\b%s\b" % re.escape(src), "$src", txt)
+            sig.add((w.kind, txt[:120]))
+        sigs[cq] = (g, sig)
+    allsig = [v[1] for v in sigs.values()]
+    for cq, (g, sig) in sigs.items():
+        others = [v[1] for k, v in sigs.items() if k != cq]
+        agree_elsewhere = all(o == others[0] for o in others)
+        diff = sorted((sig - others[0]) | (others[0] - sig))
+        ok = sig == others[0] or not agree_elsewhere
+        rep.check(ok, "R12.5", g.qualname, "state updates differ from the sibling copy constructors: %s" % "; ".join(t for k, t in diff)[:100], fn_where(g),
+                  "%s performs the same %d state updates as its siblings" % (g.qualname, len(sig)),
+                  "%s differs from the other two copy constructors in its state updates (%s): the deep copy's state must be adopted by sharing the instance dict (`self.__dict__ = t.__dict__`) so that objects inside the copy that refer to the temporary (attribute-bound annotations) stay bound to the live attributes of the new object" % (g.qualname, "; ".join("%s `%s`" % d for d in diff)[:300]))
+    if len({frozenset(x) for x in allsig}) == 3:
+        rep.check(False, "R12.5", SCOPED[0] + "._clone_from", "all three copy constructors differ", fn_where(sigs[SCOPED[0]][0]), "", "the three _clone_from implementations all differ in their state updates")
+
+    # ---- R12.6: no deep-copy hook hands out the receiver or its shallow state
+    rep.rule("R12.6", "every __deepcopy__ in the data model returns a new object: no `return self`, and the instance dict is never taken over or shallow-copied from the receiver")
+    nh = 0
+    for m in COPY_MODULES[:-1] + [DM + "datasetmodel"]:
+        for f in index.functions_in_module(m):
+            if f.name != "__deepcopy__" or f.cls is None:
+                continue
+            nh += 1
+            if f.qualname in DEEPCOPY_SELF_OK:
+                rep.ob("R12.6", fn_where(f), "%s: exempt - %s" % (f.qualname, DEEPCOPY_SELF_OK[f.qualname]), True, nontrivial=False)
+                continue
+            bad = []
+            for n in walk_no_nested(f.node):
+                if isinstance(n, ast.Return) and isinstance(n.value, ast.Name) and n.value.id == "self":
+                    bad.append((n, "returns the receiver itself"))
+                if isinstance(n, ast.Call) and isinstance(n.func, ast.Attribute) and n.func.attr == "update" and norm(n.func.value).endswith(".__dict__") and n.args and norm(n.args[0]) == "self.__dict__":
+                    bad.append((n, "shallow-copies the receiver's instance dict"))
+                if isinstance(n, ast.Assign) and norm(n.targets[0]).endswith(".__dict__") and "self.__dict__" in norm(n.value):
+                    bad.append((n, "takes over the receiver's instance dict"))
+                if isinstance(n, ast.Call) and norm(n.func) == "copy.copy" and n.args and norm(n.args[0]) == "self":
+                    bad.append((n, "returns a shallow copy"))
+            rep.check(not bad, "R12.6", f.qualname, "__deepcopy__ %s" % (bad[0][1] if bad else ""), fn_where(f, bad[0][0] if bad else None), "%s builds a new object from deep-copied state" % f.qualname,
+                      "%s %s (`%s`): a deep copy of a tree / matrix then shares this object (or the mutable objects it refers to) with the original, so mutating one is visible in the other" % (f.qualname, bad[0][1] if bad else "", norm(bad[0][0])[:60] if bad else ""))
+    rep.floor("R12.6", "__deepcopy__ hooks in the data model", 12, nh)
 
     # ---- R12.3
     c08.thin_clone_rule(index, rep, "R12.3")
